@@ -114,6 +114,7 @@ type c17Scenario struct {
 	inject   int    // max injected panics / cancellations
 	fetcher  string // http | fake (caller-supplied fetcher that parks)
 	stCaller []bool // per caller: supplies the reference signing time (default: none)
+	shim     bool   // built with the sync shim: epilogues are scheduling points
 	once     sync.Once
 	w        *revWorld
 }
@@ -188,10 +189,16 @@ type ctlResult struct {
 	pan any
 }
 
+// c17ShimHook is set by the build-tagged shim file: it attaches the scheduler of the current execution to the sync shim.
+var c17ShimHook func(*sched.Scheduler) func()
+
 func (s *c17Scenario) body(c *mc.Ctx) {
 	w := s.world()
 	n := len(s.pattern) + 1
 	sc := sched.New()
+	if s.shim && c17ShimHook != nil {
+		defer c17ShimHook(sc)()
+	}
 	ctx, cancel := context.WithCancel(context.Background())
 	defer cancel()
 	answerFor := func(src source) netsim.Answer {
@@ -314,7 +321,7 @@ func (s *c17Scenario) body(c *mc.Ctx) {
 		}
 		op := parked[k]
 		d := ctlDecision{kind: "answer"}
-		if s.inject > 0 && c.Deviations() < s.inject {
+		if s.inject > 0 && c.Deviations() < s.inject && !op.Epilogue {
 			kinds := 3
 			if s.entry == "checkstatus" || strings.Contains(op.Key, "cache-") {
 				kinds = 2 // no context to cancel / cache seams only panic
